@@ -23,17 +23,19 @@ pub enum Case {
     Dec { spec: DecSpec, ops: Vec<Op>, strategy: String },
     Enc { spec: EncSpec, ops: Vec<Op> },
     Mem { spec: MemSpec, ops: Vec<Op> },
+    /// one call of a pure mem / validator function on guarded memory (C06 only)
+    MemFn { spec: crate::memfn::MemFnSpec, ops: Vec<Op> },
 }
 
 impl Case {
     pub fn ops(&self) -> &Vec<Op> {
         match self {
-            Case::Dec { ops, .. } | Case::Enc { ops, .. } | Case::Mem { ops, .. } => ops,
+            Case::Dec { ops, .. } | Case::Enc { ops, .. } | Case::Mem { ops, .. } | Case::MemFn { ops, .. } => ops,
         }
     }
     pub fn ops_mut(&mut self) -> &mut Vec<Op> {
         match self {
-            Case::Dec { ops, .. } | Case::Enc { ops, .. } | Case::Mem { ops, .. } => ops,
+            Case::Dec { ops, .. } | Case::Enc { ops, .. } | Case::Mem { ops, .. } | Case::MemFn { ops, .. } => ops,
         }
     }
     pub fn stream_len(&self) -> usize {
@@ -41,6 +43,7 @@ impl Case {
             Case::Dec { spec, .. } => spec.stream.len(),
             Case::Enc { spec, .. } => spec.text.len(),
             Case::Mem { spec, .. } => spec.src.len(),
+            Case::MemFn { spec, .. } => spec.src.len(),
         }
     }
     pub fn skip_fast(&self) -> bool {
@@ -54,6 +57,7 @@ impl Case {
             Case::Dec { .. } => "DEC",
             Case::Enc { .. } => "ENC",
             Case::Mem { .. } => "MEMSINK",
+            Case::MemFn { .. } => "MEMFN",
         }
     }
 
@@ -72,6 +76,10 @@ impl Case {
             }),
             Case::Mem { spec, ops } => json!({
                 "scenario": "MEMSINK", "function": spec.func.name(), "src_units": spec.src, "ops": ops_to_json(ops)
+            }),
+            Case::MemFn { spec, ops } => json!({
+                "scenario": "MEMFN", "function": spec.func, "src_units": spec.src, "src_off": spec.src_off,
+                "dst_off": spec.dst_off, "slack": spec.slack, "ops": ops_to_json(ops)
             }),
         }
     }
@@ -114,6 +122,16 @@ impl Case {
                 spec: MemSpec {
                     func: MemFn::from_name(v.get("function")?.as_str()?)?,
                     src: v.get("src_units")?.as_array()?.iter().map(|x| x.as_u64().unwrap_or(0) as u16).collect(),
+                },
+                ops,
+            }),
+            "MEMFN" => Some(Case::MemFn {
+                spec: crate::memfn::MemFnSpec {
+                    func: v.get("function")?.as_str()?.to_string(),
+                    src: v.get("src_units")?.as_array()?.iter().map(|x| x.as_u64().unwrap_or(0) as u16).collect(),
+                    src_off: v.get("src_off").and_then(|x| x.as_u64()).unwrap_or(0) as u8,
+                    dst_off: v.get("dst_off").and_then(|x| x.as_u64()).unwrap_or(0) as u8,
+                    slack: v.get("slack").and_then(|x| x.as_u64()).unwrap_or(0) as u8,
                 },
                 ops,
             }),
@@ -333,6 +351,7 @@ pub fn generate(prop: &str, rng: &mut Rng, skip_fast: bool, run_index: u64) -> (
         "C02" | "C10" | "C19" => 0,
         "C04" | "C12" => 1,
         "C05" => rng.weighted(&[7, 0, 3]),
+        "C06" if !crate::gen::tiny() || run_index % 4 == 0 => rng.weighted(&[6, 3, 2, 1]),
         "C06" | "C18" => rng.weighted(&[6, 3, 2]),
         _ => rng.weighted(&[5, 4, 0]),
     };
@@ -406,6 +425,11 @@ pub fn generate(prop: &str, rng: &mut Rng, skip_fast: bool, run_index: u64) -> (
                 _ => {}
             }
             (Case::Enc { spec, ops: Vec::new() }, p)
+        }
+        3 => {
+            let spec = crate::memfn::draw(rng, run_index);
+            let p = Profile::draw(rng, &[K_SLICE]);
+            (Case::MemFn { spec, ops: Vec::new() }, p)
         }
         _ => {
             let spec = draw_mem_spec(rng);
@@ -1081,6 +1105,28 @@ fn exec_mem(prop: &str, spec: &MemSpec, source: &mut dyn OpSource) -> RunOut {
     }
 }
 
+fn exec_memfn(spec: &crate::memfn::MemFnSpec) -> RunOut {
+    let viols = crate::memfn::execute(spec);
+    let mut sig = crate::rng::Digest::new();
+    sig.u64(crate::props::scenario_id(&spec.func));
+    sig.u64(spec.src.len() as u64);
+    RunOut {
+        viols,
+        calls: 1,
+        events: 1,
+        units: spec.src.len(),
+        faults: Faults { placement: (spec.src_off != 0 || spec.dst_off != 0) as u64, ..Faults::default() },
+        probes: vec![("mem_function_call", 1)],
+        sig: sig.finish(),
+        transcript: sig.finish(),
+        nontrivial: false,
+        aborted: None,
+        finished: true,
+        flags: vec!["workload_mem_function_call"],
+        states: Vec::new(),
+    }
+}
+
 /// Execute one case. With `Source::Prng` the scheduler decides the ops and
 /// they are recorded into the case; with `Source::Replay` the recorded ops
 /// are executed with no PRNG.
@@ -1105,6 +1151,7 @@ pub fn execute(prop: &str, case: &mut Case, source: Source) -> RunOut {
         Case::Dec { spec, .. } => exec_dec(prop, spec, src),
         Case::Enc { spec, .. } => exec_enc(prop, spec, src),
         Case::Mem { spec, .. } => exec_mem(prop, spec, src),
+        Case::MemFn { spec, .. } => exec_memfn(spec),
     };
     let rec = src.recorded().to_vec();
     *case.ops_mut() = rec;
